@@ -182,8 +182,10 @@ class RealRun:
             def __init__(self, idx):
                 super().__init__(f"e{idx}")
                 self.idx = idx
+                self.mod3 = 0          # public observation counter (deliveries mod 3), read by MetricBreakpoint; never used by handlers
 
             def handle_event(self, event):
+                self.mod3 = (self.mod3 + 1) % 3
                 ctx = event.context
                 if "uid" not in ctx:               # event re-created by control.reset(): only metadata survives
                     ctx = ctx.get("metadata") or {}
@@ -195,6 +197,9 @@ class RealRun:
                 if event.cancelled:
                     run.anomalies.append(("cancelled-delivered", uid, now))
                 fuel = ctx.get("fuel", 0)
+                md = event.context.get("metadata")
+                if isinstance(md, dict) and "fuel" in md:
+                    md["fuel"] = 0     # handlers may annotate the events they receive: this one marks the budget as consumed
                 if fuel <= 0:
                     return None
                 beh = beh_of(prog, self.idx, KINDS.index(event.event_type))
